@@ -1,15 +1,29 @@
 import Hgxv.Model.Wire
 import Hgxv.Model.C12
-/-! Line protocol for C12.  State: the current directed hypergraph.
+import Hgxv.Model.C12Hist
+/-! Line protocol for C12.  State: the current directed hypergraph (its two listings) and the objects of a history.
   `load <sources as natss> <targets as natss> <nodes>`  -> `ok`
   `indeg <size|-1>` / `outdeg <size|-1>`                -> `n:deg,...` in node-list order
   `exact m` / `strong m` / `weak m`                      -> `k:ratio,...`
-  `sig m`                                                -> comma list -/
+  `sig m`                                                -> comma list
+
+ history (full container model `C02.step`; weights in quanta of 1/4, `N` = not given; answers `ok` | `rej`):
+  `hreset`
+  `hnew <slot> <0|1> <sources|N> <targets|N> <weights|N>`   constructor (`N N` = no edge list)
+  `hcopy <a> <b>`     `hclear <slot>`
+  `hnode <slot> <n>`  `hnodes <slot> <ns>`
+  `hadd <slot> <S> <T> <w|N>`          `hadds <slot> <sources> <targets> <weights|N>`
+  `hrm <slot> <S> <T>`                 `hrms <slot> <sources> <targets>`
+  `hrmnode <slot> <n> <0|1>`           `hrmnodes <slot> <ns> <0|1>`
+  `hsetw <slot> <S> <T> <w>`
+  `hload <slot>`   the listings of the object become the current hypergraph
+                   -> `<sources> <targets> <nodes>` in listing order | `bad-slot` -/
 open Wire C12
 
 structure St where
   nodes : List Nat := []
   es : List DEdge := []
+  hist : C02.State := []
 
 def sizeArg (s : String) : Option Nat := match s.toInt? with
   | some i => if i < 0 then none else some i.toNat
@@ -20,10 +34,39 @@ def showTable (t : List (Nat × Rat)) : String :=
 def showSeq (t : List (Nat × Nat)) : String :=
   showList "," "-" (fun (p : Nat × Nat) => toString p.1 ++ ":" ++ toString p.2) t
 
+def optInt? (s : String) : Option (Option Int) := if s = "N" then some none else s.toInt?.map some
+def optInts? (s : String) : Option (Option (List Int)) := if s = "N" then some none else (ints? s).map some
+def bool? (s : String) : Option Bool := if s = "1" then some true else if s = "0" then some false else none
+def raws (a b : List (List Nat)) : List C02.RawEdge := (a.zip b).map (fun p => C02.RawEdge.ofLists p.1 p.2)
+def optRaws? (a b : String) : Option (Option (List C02.RawEdge)) :=
+  if a = "N" then some none else do
+    let x ← natss? a
+    let y ← natss? b
+    if x.length = y.length then pure (some (raws x y)) else none
+
+def histCmd : List String → Option C02.Cmd
+  | ["hnew", sl, w, a, b, ws] => do
+      pure (.new (← sl.toNat?) (← bool? w) none none (← optRaws? a b) (← optInts? ws) none)
+  | ["hcopy", a, b] => do pure (.copy (← a.toNat?) (← b.toNat?))
+  | ["hclear", sl] => do pure (.op (← sl.toNat?) .clear)
+  | ["hnode", sl, n] => do pure (.op (← sl.toNat?) (.addNode (← n.toNat?) none))
+  | ["hnodes", sl, ns] => do pure (.op (← sl.toNat?) (.addNodes (← nats? ns)))
+  | ["hadd", sl, a, b, w] => do
+      pure (.op (← sl.toNat?) (.addEdge (C02.RawEdge.ofLists (← nats? a) (← nats? b)) (← optInt? w) none))
+  | ["hadds", sl, a, b, ws] => do
+      pure (.op (← sl.toNat?) (.addEdges ((← optRaws? a b).getD []) (← optInts? ws) none))
+  | ["hrm", sl, a, b] => do pure (.op (← sl.toNat?) (.removeEdge (C02.RawEdge.ofLists (← nats? a) (← nats? b))))
+  | ["hrms", sl, a, b] => do pure (.op (← sl.toNat?) (.removeEdges ((← optRaws? a b).getD [])))
+  | ["hrmnode", sl, n, k] => do pure (.op (← sl.toNat?) (.removeNode (← n.toNat?) (← bool? k)))
+  | ["hrmnodes", sl, ns, k] => do pure (.op (← sl.toNat?) (.removeNodes (← nats? ns) (← bool? k)))
+  | ["hsetw", sl, a, b, w] => do
+      pure (.op (← sl.toNat?) (.setWeight (C02.RawEdge.ofLists (← nats? a) (← nats? b)) (← w.toInt?)))
+  | _ => none
+
 def step (s : St) : List String → St × String
   | ["load", src, tgt, nodes] =>
     match natss? src, natss? tgt, nats? nodes with
-    | some a, some b, some n => ({ nodes := n, es := a.zip b }, "ok")
+    | some a, some b, some n => ({ s with nodes := n, es := a.zip b }, "ok")
     | _, _, _ => (s, "bad-op")
   | ["indeg", k] => (s, showSeq (inDegreeSeq s.nodes s.es (sizeArg k)))
   | ["outdeg", k] => (s, showSeq (outDegreeSeq s.nodes s.es (sizeArg k)))
@@ -31,6 +74,21 @@ def step (s : St) : List String → St × String
   | ["strong", m] => (s, showTable (reciprocityTable isStrong s.es m.toNat!))
   | ["weak", m] => (s, showTable (reciprocityTable isWeak s.es m.toNat!))
   | ["sig", m] => (s, showNats (signature s.es m.toNat!))
-  | _ => (s, "bad-op")
+  | ["hreset"] => ({ s with hist := [] }, "ok")
+  | ["hload", sl] =>
+    match sl.toNat?.bind (AL.get? s.hist) with
+    | some o =>
+      let es := histListing o
+      let ns := histNodes o
+      ({ s with nodes := ns, es := es },
+       showNatss (es.map (·.1)) ++ " " ++ showNatss (es.map (·.2)) ++ " " ++ showNats ns)
+    | none => (s, "bad-slot")
+  | toks =>
+    match histCmd toks with
+    | some c =>
+      -- one step of `C12.histRun`
+      let r := C02.step s.hist c
+      ({ s with hist := r.1 }, match r.2 with | .ok => "ok" | .rej => "rej")
+    | none => (s, "bad-op")
 
 def main : IO Unit := Wire.run step {}
